@@ -713,3 +713,74 @@ Proof.
   apply viol_eqb_eq in Heq. cbn in Heq. destruct Heq as [E1 [E2 [E3 E4]]].
   exists w; repeat split; auto.
 Qed.
+
+(* ------------------------------------------------------------------ static storage *)
+(* A member lives once per object, a static-storage variable once per program: whatever object an operation is invoked
+   on, it touches THE SAME location.  [addr o v] is the location of variable v reached through object o. *)
+Definition shared_static (addr : nat -> nat -> loc) (v : nat) : Prop := forall o1 o2, addr o1 v = addr o2 v.
+
+(* soundness: if the class given to that one location is respected, accesses made through DIFFERENT objects by different
+   threads are ordered like any others *)
+Theorem static_storage_sound : forall cls owner tr addr v,
+  wf_trace tr -> respects cls owner tr -> shared_static addr v ->
+  forall o1 o2 i j ti tj ki kj, i < j ->
+    nth_error tr i = Some (EAcc ti (addr o1 v) ki) -> nth_error tr j = Some (EAcc tj (addr o2 v) kj) ->
+    ti <> tj -> (ki = W \/ kj = W) -> hb tr i j.
+Proof.
+  intros cls owner tr addr v Hwf Hres Hsh o1 o2 i j ti tj ki kj Hij Hi Hj Hne Hw.
+  rewrite (Hsh o2 o1) in Hj.
+  eapply discipline_sound; eauto.
+Qed.
+
+(* ... and what goes wrong when it is treated like a member: "confined to the loop of its object" is respected object by
+   object (each access is made by the owner thread of the loop of the object it goes through), yet two objects on two
+   loops write the same bytes (Buffer::readFd's extrabuf made static; AppendFile::buffer_ made static) *)
+Lemma static_per_object_confinement_races :
+  exists (tr : trace) (addr : nat -> nat -> loc) (owner_of_obj : nat -> tid) v i j,
+    shared_static addr v /\ wf_trace tr /\
+    nth_error tr i = Some (EAcc (owner_of_obj 1) (addr 1 v) W) /\
+    nth_error tr j = Some (EAcc (owner_of_obj 2) (addr 2 v) W) /\
+    conflicting tr i j /\ ~ hb tr i j /\ ~ hb tr j i.
+Proof.
+  exists [EAcc 1 0 W; EAcc 2 0 W], (fun _ _ => 0), (fun o => o), 0, 0, 1.
+  assert (Hno : forall a b, hb [EAcc 1 0 W; EAcc 2 0 W] a b -> False).
+  { intros a b H. induction H; try assumption.
+    - destruct i as [|[|i]]; destruct j as [|[|j]]; cbn in *; try lia; try discriminate;
+        try (rewrite nth_error_nil_none in *; discriminate).
+      injection H0 as <-. injection H1 as <-. cbn in H2. discriminate.
+    - destruct i as [|[|i]]; destruct j as [|[|j]]; cbn in *; try lia; try discriminate;
+        try (rewrite nth_error_nil_none in *; discriminate).
+      injection H0 as <-. injection H1 as <-. cbn in H2. discriminate. }
+  split; [intros o1 o2; reflexivity|]. split.
+  - split.
+    + intros n e H. destruct n as [|[|n]]; cbn in H; try (injection H as <-; exact I).
+      rewrite nth_error_nil_none in H; discriminate.
+    + intros i j a b Ha Hb.
+      destruct i as [|[|i]]; cbn in Ha; try (rewrite nth_error_nil_none in Ha; discriminate);
+        injection Ha as <-; repeat split; exact I.
+  - split; [reflexivity|]. split; [reflexivity|]. split.
+    + exists 1, 2, 0, W, W. repeat split; try reflexivity; [discriminate|now left].
+    + split; intros H; exact (Hno _ _ H).
+Qed.
+
+(* the static rule is part of the obligation *)
+Theorem static_checked : forall T S wv, discipline_ok S T wv = true ->
+  forall sv, In sv (t_statics T) ->
+    (exists c, lookup1 (sv_name sv) (t_static_classes T) = Some c /\ static_ok sv c = true) \/
+    (exists w, In w wv /\ v_class w = "static"%string /\ v_what w = sv_name sv).
+Proof.
+  intros T S wv Hok sv Hsv.
+  destruct (lookup1 (sv_name sv) (t_static_classes T)) as [c|] eqn:Hc.
+  - destruct (static_ok sv c) eqn:Hs; [left; exists c; split; auto|right].
+    assert (Hv : In (mkViol "static" (sv_where sv) (sv_name sv) "staticclass") (violations_raw T S)).
+    { unfold violations_raw. do 7 (apply in_or_app; right). apply in_or_app; left.
+      unfold static_violations. apply in_flat_map. exists sv; split; [exact Hsv|]. rewrite Hc, Hs. left; reflexivity. }
+    destruct (discipline_ok_spec _ _ _ Hok _ Hv) as [w [Hw Heq]].
+    apply viol_eqb_eq in Heq. cbn in Heq. destruct Heq as [E1 [E2 [E3 E4]]]. exists w; repeat split; auto.
+  - right.
+    assert (Hv : In (mkViol "static" (sv_where sv) (sv_name sv) "nostaticclass") (violations_raw T S)).
+    { unfold violations_raw. do 7 (apply in_or_app; right). apply in_or_app; left.
+      unfold static_violations. apply in_flat_map. exists sv; split; [exact Hsv|]. rewrite Hc. left; reflexivity. }
+    destruct (discipline_ok_spec _ _ _ Hok _ Hv) as [w [Hw Heq]].
+    apply viol_eqb_eq in Heq. cbn in Heq. destruct Heq as [E1 [E2 [E3 E4]]]. exists w; repeat split; auto.
+Qed.
